@@ -164,45 +164,61 @@ def same_start(V, k, master, stype):
 
 
 @unit('C18', 'Cluster.time_match', functions=[M_ + 'Cluster.time_match'],
-      cases=[dict(lag=l, master=m) for l in (-1, 0, 1) for m in (0, 1)], modes=('bounded',), sizes=dict(n=[5, 6]), budget_ms=30000)
-def time_match(V, lag, master):
-    """slave = master delayed by `lag` samples (|lag| < steps = 2); after time_match the compared windows coincide."""
+      cases=[dict(lags=(l,), master=m) for l in (-1, 0, 1) for m in (0, 1)] +
+            [dict(lags=(l1, l2), master=m) for l1 in (-1, 0, 1) for l2 in (-1, 0, 1) for m in (0, 1, 2)],
+      modes=('bounded',), sizes=dict(n=[5, 6]), budget_ms=30000)
+def time_match(V, lags, master):
+    """every non-master signal = master delayed by its own lag (|lag| < steps = 2), two or three signals, any master position;
+    after time_match the compared windows of EVERY non-master signal coincide with the master's."""
     st = {}
     STEPS = 2
+    k = len(lags) + 1
 
     def setup():
         CS.install_cache_summaries(V)
         n = V.size('n', 5)
         x = V.array('x', n, origin='param')                 # master record
-        pad = V.array('pad', n, origin='param')             # arbitrary samples where the delayed copy has no data
-        sl = V.np.np_array([x[i - lag] if 0 <= i - lag < n else pad[i] for i in range(n)])
-        arrs = [x, sl] if master == 0 else [sl, x]
+        slaves = []
+        for q, lag in enumerate(lags):
+            pad = V.array('pad%d' % q, n, origin='param')   # arbitrary samples where the delayed copy has no data
+            slaves.append(V.np.np_array([x[i - lag] if 0 <= i - lag < n else pad[i] for i in range(n)]))
+        arrs = list(slaves)
+        arrs.insert(master, x)
         c = V.itp.call(V.itp.get_function(M_ + 'Cluster'), [arrs, Q('0.5')], dict(master_index=master))
-        st.update(c=c, x=x, sl=sl, n=n)
+        st.update(c=c, x=x, n=n)
         return ((c,), dict(steps=STEPS))
     for out in V.run(M_ + 'Cluster.time_match', setup):
+        out.replay_info = dict(module='cluster', op='time_match', lags=list(lags), master=master, steps=STEPS)
         if not out.no_raise():
             continue
-        c, x, sl, n = st['c'], st['x'], st['sl'], st['n']
+        c, x, n = st['c'], st['x'], st['n']
         sigs = sigs_of(V, c)
-        mv, sv = sigs[master].attrs['_values'], sigs[1 - master].attrs['_values']
-        out.prove('values-remain-arrays', is_arr(mv) and is_arr(sv))
-        if not (is_arr(mv) and is_arr(sv)):
+        vals = [sg.attrs['_values'] for sg in sigs]
+        out.prove('values-remain-arrays', all(is_arr(v) for v in vals))
+        if not all(is_arr(v) for v in vals):
             continue
-        out.prove('lengths-unchanged', tuple(mv.shape) == (n,) and tuple(sv.shape) == (n,))
+        out.prove('lengths-unchanged', all(tuple(v.shape) == (n,) for v in vals))
+        mv = vals[master]
         out.prove('master-unchanged', T.sand(*[T.seq(mv[i], x[i]) for i in range(n)]))
-        if tuple(sv.shape) != (n,):
+        if not all(tuple(v.shape) == (n,) for v in vals):
             continue
-        m = out.result                                       # lag that was removed (for two signals)
-        # the overlapping (compared) samples coincide after alignment
-        w = n - STEPS
-        goals = []
-        for cand in range(-STEPS + 1, STEPS):
-            if cand >= 0:
-                eq = T.sand(*[T.seq(sv[i], x[i]) for i in range(w)])
-            else:
-                eq = T.sand(*[T.seq(sv[-cand + j], x[-cand + j]) for j in range(w)])
-            goals.append(T.simplies(T.seq(m, cand), eq))
+        m = out.result                                       # lag that was removed from the LAST non-master signal
         out.prove('returned-lag-within-search-window', T.sand(T.sgt(m, -STEPS), T.slt(m, STEPS)))
-        out.prove('compared-samples-coincide-after-alignment', T.sand(*goals))
+        w = n - STEPS
+        others = [j for j in range(k) if j != master]
+        for pos, j in enumerate(others):
+            sv = vals[j]
+            # the overlapping (compared) samples coincide after alignment
+            goals, alts = [], []
+            for cand in range(-STEPS + 1, STEPS):
+                if cand >= 0:
+                    eq = T.sand(*[T.seq(sv[i], x[i]) for i in range(w)])
+                else:
+                    eq = T.sand(*[T.seq(sv[-cand + jj], x[-cand + jj]) for jj in range(w)])
+                goals.append(T.simplies(T.seq(m, cand), eq))
+                alts.append(eq)
+            if pos == len(others) - 1:
+                out.prove('compared-samples-coincide-after-alignment', T.sand(*goals))
+            else:
+                out.prove('compared-samples-coincide-after-alignment (signal %d)' % j, T.sor(*alts))
         out.unchanged('x', x)
